@@ -292,6 +292,12 @@ func BuildAction(n *wire.N, h Hist) (of.Action, error) {
 		}
 		for _, s := range present {
 			s.f()
+			if h.LenBetween {
+				a.Len() // a container the action is already attached to asks for its size between two setter calls
+			}
+			if h.Variant == 2 {
+				s.f() // a range that is set again replaces the earlier one
+			}
 		}
 		return a, nil
 	}
